@@ -153,6 +153,9 @@ theorem levelMatch_sameTrie_iff (f t : List Level) :
         obtain ⟨ts, rfl⟩ := levelMatch_first hm hw
         cases l <;> simp [sysLevels]
 
+instance (f : Topic) : Decidable (ValidFilter f) := by
+  unfold ValidFilter; exact inferInstance
+
 theorem validFilter_hashLast {f : Topic} (h : ValidFilter f) : hashLast (splitLevels f) = true := h.2.2
 
 end GmqttVerif.Retained
